@@ -24,6 +24,16 @@ func loadFromYAMLFile(path string, data interface{}) error {
 	return decoder.Decode(data)
 }
 
+// writeFileAtomic replaces the file at path with data by writing a temporary file next to it and
+// renaming it into place, so that a crash leaves either the old or the new file, never a torn one.
+func writeFileAtomic(path string, data []byte) error {
+	tempFilePath := path + ".tmp"
+	if err := os.WriteFile(tempFilePath, data, 0644); err != nil {
+		return err
+	}
+	return os.Rename(tempFilePath, path)
+}
+
 type YAMLAccountManager struct {
 	accounts   map[string]hotline.Account
 	accountDir string
@@ -76,22 +86,17 @@ func (am *YAMLAccountManager) Create(account hotline.Account) error {
 	defer am.mu.Unlock()
 
 	// Create account file, returning an error if one already exists.
-	file, err := os.OpenFile(
-		filepath.Join(am.accountDir, path.Join("/", account.Login+".yaml")),
-		os.O_CREATE|os.O_EXCL|os.O_WRONLY, 0644,
-	)
-	if err != nil {
-		return fmt.Errorf("create account file: %w", err)
+	accountPath := filepath.Join(am.accountDir, path.Join("/", account.Login+".yaml"))
+	if _, err := os.Stat(accountPath); err == nil {
+		return fmt.Errorf("create account file: %w", os.ErrExist)
 	}
-	defer file.Close()
 
 	b, err := yaml.Marshal(account)
 	if err != nil {
 		return fmt.Errorf("marshal account to YAML: %v", err)
 	}
 
-	_, err = file.Write(b)
-	if err != nil {
+	if err := writeFileAtomic(accountPath, b); err != nil {
 		return fmt.Errorf("write account file: %w", err)
 	}
 
@@ -126,7 +131,7 @@ func (am *YAMLAccountManager) Update(account hotline.Account, newLogin string) e
 		return err
 	}
 
-	if err := os.WriteFile(filepath.Join(am.accountDir, path.Join("/", newLogin)+".yaml"), out, 0644); err != nil {
+	if err := writeFileAtomic(filepath.Join(am.accountDir, path.Join("/", newLogin)+".yaml"), out); err != nil {
 		return fmt.Errorf("error writing account file: %w", err)
 	}
 
